@@ -23,7 +23,7 @@ RULE = (
 )
 ASSUMPTIONS = [
     "every permutation of an address-hashed set is a feasible iteration order (object addresses vary from run to run)",
-    "fuel limit = 400 000 + 150 000 library calls per block (a successful grade of 8 blocks costs < 60 000 calls)",
+    "fuel limit = 20 000 + 40 000 library calls per block (measured: a successful write costs about 1 050 calls per block, 8 415 for 8 graded blocks; margin >= 40x)",
     "order-independence cell uses chops that state their count (count, count+ratio, count+size, multi-section), so the "
     "family count does not depend on floating-point rounding of averaged edge lengths",
 ]
@@ -32,7 +32,7 @@ _picks = st.lists(st.integers(0, 719), min_size=1, max_size=6)
 
 
 def fuel_limit(nblocks: int) -> int:
-    return 400_000 + 150_000 * nblocks
+    return 20_000 + 40_000 * nblocks
 
 
 def facts_of(case):
@@ -85,6 +85,35 @@ def wellposed_case(draw, graded):
     return case
 
 
+@st.composite
+def flanked_case(draw):
+    """An un-chopped block B whose four edges in direction z all belong to chopped neighbours (A and D on either
+    side), plus a block C that touches B: B becomes fully defined through copied edge gradings alone - the shape on
+    which propagation used to spin (ledger F2)."""
+    dims = [3, 2, draw(st.integers(1, 2))]
+    base = [0, 1, 2, 4]
+    opt = [c for c in range(dims[0] * dims[1] * dims[2]) if c not in base]
+    extra = draw(st.lists(st.sampled_from(opt), max_size=min(3, len(opt)), unique=True))
+    cells = draw(st.permutations(base + extra))
+    case = {
+        "dims": dims,
+        "widths": [[10.0 ** draw(st.floats(-0.5, 0.5)) for _ in range(dims[a])] for a in range(3)],
+        "jitter": [], "cells": list(cells), "orient": [draw(st.integers(0, 23)) for _ in cells], "chops": [],
+    }
+    fams, _ = lt.lattice_families(case)
+    n = draw(st.integers(1, 9))
+    chops = [{"cell": 0, "gdir": 2, "args": {"count": n}}, {"cell": 2, "gdir": 2, "args": {"count": n}}]
+    for fam in fams:
+        if (0, 2) in fam:
+            continue
+        c, d = draw(st.sampled_from(fam))
+        chops.append({"cell": c, "gdir": d, "args": lt.count_chop(draw)})
+    case["chops"] = draw(st.permutations(chops))
+    case["mode"] = "flanked"
+    case["picks"] = draw(_picks)
+    return case
+
+
 def check_complete(case, ctx: Ctx) -> None:
     built = lt.build(case)
     outcome, payload, multi = run_write(case, built, case["picks"])
@@ -94,7 +123,7 @@ def check_complete(case, ctx: Ctx) -> None:
     if outcome == "raise":
         if case.get("graded_args_rejected_ok") or _has_size_chop(case):
             # a size/ratio combination can be unrealisable on the edge (C03's business); count-only models must write
-            if isinstance(payload, ValueError) and not isinstance(payload, (UndefinedGradingsError, InconsistentGradingsError)):
+            if isinstance(payload, (ValueError, ArithmeticError)) and not isinstance(payload, (UndefinedGradingsError, InconsistentGradingsError)):
                 ctx.label("chop-rejected")
                 return
         raise Violation("wellposed-rejected", f"well-posed model raised {type(payload).__name__}: {payload}",
@@ -207,7 +236,7 @@ def check_order(case, ctx: Ctx) -> None:
     if len(classes) != 1:
         raise Violation("outcome-depends-on-order", f"variants end differently: {sorted(classes)}", **facts)
     if base_outcome != "ok":
-        if isinstance(base_payload, ValueError) and _has_size_chop(case):
+        if isinstance(base_payload, (ValueError, ArithmeticError)) and _has_size_chop(case):
             ctx.label("chop-rejected")
             return
         raise Violation("wellposed-rejected", f"well-posed model raised {type(base_payload).__name__}: {base_payload}", **facts)
@@ -313,9 +342,29 @@ def check_determinism(case, ctx: Ctx) -> None:
     ctx.label("outcome:" + (outs[0][0] if outs[0][0] == "ok" else outs[0][1]))
 
 
+# the 4-box model of DESIGN.md appendix A (F2): A(0,0) D(2,0) B(1,0) C(1,1) inserted in that order, A and D chopped in z;
+# all 6 orders of the 3-element neighbour set of C's z direction are enumerated
+_LIVELOCK = [
+    {
+        "dims": [3, 2, 1], "widths": [[1.0, 1.0, 1.0], [1.0, 1.0], [1.0]], "jitter": [], "cells": [0, 2, 1, 4],
+        "orient": [0, 0, 0, 0], "mode": "redundant", "picks": [k],
+        "chops": [
+            {"cell": 0, "gdir": 2, "args": {"count": 5}}, {"cell": 2, "gdir": 2, "args": {"count": 5}},
+            {"cell": 0, "gdir": 0, "args": {"count": 2}}, {"cell": 2, "gdir": 0, "args": {"count": 2}},
+            {"cell": 1, "gdir": 0, "args": {"count": 2}}, {"cell": 0, "gdir": 1, "args": {"count": 3}},
+            {"cell": 4, "gdir": 1, "args": {"count": 3}},
+        ],
+    }
+    for k in range(6)
+]
+
 CELLS = [
+    Cell("C02/complete/flanked", flanked_case(), check_complete, 150, 6000,
+         "an un-chopped block flanked by two identically chopped blocks plus a neighbour of it (livelock shape), drawn "
+         "insertion order / numbering / schedule"),
     Cell("C02/complete/count", wellposed_case(False), check_complete, 200, 8000,
-         "well-posed / redundant count chops + drawn schedule: terminates, writes, every block direction has its family's count"),
+         "well-posed / redundant count chops + drawn schedule: terminates, writes, every block direction has its family's count",
+         fixed_cases=_LIVELOCK),
     Cell("C02/complete/graded", wellposed_case(True), check_complete, 120, 6000,
          "well-posed graded chops (sizes, ratios, preserve) + drawn schedule"),
     Cell("C02/order-independence", order_case(), check_order, 100, 4000,
